@@ -23,10 +23,12 @@ from lib.common import MachineryError, classify_mismatches, log
 PKG_N = "./p2p/security/noise"
 PKG_T = "./p2p/security/tls"
 PKG_S = "./p2p/net/swarm"
+PKG_Q = "./p2p/transport/quic"
 INV_N = "INVARIANTS TypeOKN AuthN ExpectN NoAlteredN AgreeN"
 BROKEN_N = ("nosig", "sigunbound", "checkinit", "noaead", "nodh")
 BROKEN_T = ("nosig", "sigunbound", "chain2")
 BROKEN_S = ("noaddrcheck", "nochecks")
+BROKEN_H = ("addronly",)
 REACH_N = ("ReachBothDone", "ReachMasI", "ReachMasR")
 
 
@@ -114,6 +116,10 @@ def run(ctx):
     jobs += [
         (ctx, "T-edges", _cfg("T", {"TMaxMut": 3 if thorough else 2}, inv="AuthT ExpectT", edges=True), None),
         (ctx, "S-edges", _cfg("S", {"SAddrs": 4 if thorough else 3}, inv="DialAuthS WrongClosedS", edges=True), None),
+        (ctx, "H-edges", _cfg("H", {}, inv="DialAuthH", edges=True), None),
+        (ctx, "H-broken-addronly", _cfg("H", {"Variant": '"addronly"'}, inv="DialAuthH"), ("DialAuthH",)),
+        (ctx, "H-ReachPunchedH", _cfg("H", {}, inv="ReachPunchedH"), ("ReachPunchedH",)),
+        (ctx, "H-ReachRefusedH", _cfg("H", {}, inv="ReachRefusedH"), ("ReachRefusedH",)),
     ]
     for v in BROKEN_N:
         jobs.append((ctx, "N-broken-" + v, _cfg("N", dict(allN, MaxEdits=2, Variant='"%s"' % v), inv=invN),
@@ -130,8 +136,8 @@ def run(ctx):
     # build the three test binaries while TLC runs
     ov = goenv.make_overlay(ctx)
     goenv.make_overlay = lambda _ctx, _p=ov: _p
-    tpool = cf.ThreadPoolExecutor(max_workers=3)
-    builds = [tpool.submit(goenv.go_test, ctx, p, "^$", timeout=1200) for p in (PKG_N, PKG_T, PKG_S)]
+    tpool = cf.ThreadPoolExecutor(max_workers=4)
+    builds = [tpool.submit(goenv.go_test, ctx, p, "^$", timeout=1200) for p in (PKG_N, PKG_T, PKG_S, PKG_Q)]
     # at most 4 TLC workers at a time (thorough: the deep run takes 3 and is started first; the others follow
     # one at a time next to it)
     if thorough:
@@ -155,6 +161,11 @@ def run(ctx):
     results["N-edges2"]["edges"] = results["N-edges2"]["inits"] = None
     gT = graph.Graph(results["T-edges"]["inits"], results["T-edges"]["edges"])
     gS = graph.Graph(results["S-edges"]["inits"], results["S-edges"]["edges"])
+    gH = graph.Graph(results["H-edges"]["inits"], results["H-edges"]["edges"])
+    kH = _kinds(gH)
+    for need in ("plain", "punch", "arrive", "cancel"):
+        if not kH.get(need):
+            raise MachineryError("vacuous: part H graph has no %s transition" % need)
     kN = {}
     for _s, op, _t in gN.edges:
         key = op["name"] + (":" + op["kind"] if op["name"] == "edit" else ":" + str(op["k"]) + op["v"] if op["name"] == "forge" else "")
@@ -195,6 +206,8 @@ def run(ctx):
     graph.write_behaviours(os.path.join(beh, "N.jsonl"), wN, {"part": "N", "edges": gN.n_edges()})
     graph.write_behaviours(os.path.join(beh, "T.jsonl"), wT, {"part": "T", "edges": gT.n_edges()})
     graph.write_behaviours(os.path.join(beh, "S.jsonl"), wS, {"part": "S", "edges": gS.n_edges()})
+    wH = gH.covering_walks(seed=ctx.seed, max_len=8)
+    graph.write_behaviours(os.path.join(beh, "H.jsonl"), wH, {"part": "H", "edges": gH.n_edges()})
     log("C01: at %.1fs graphs N %d/%d  T %d/%d  S %d/%d (states/edges); walks %d/%d/%d"
         % (ctx.wall(), nN_states, nN_edges, gT.n_states(), gT.n_edges(), gS.n_states(), gS.n_edges(),
            len(wN), len(wT), len(wS)))
@@ -207,15 +220,20 @@ def run(ctx):
         rs = fs.result()
         # real swarms over loopback TCP (Noise, TLS) and QUIC: truthful and misdirected dials
         re_ = goenv.run_harness(ctx, PKG_S, "^TestVerifC01EndToEnd$", timeout=900)
+        # the QUIC transport driven directly over loopback UDP: plain dial and every hole-punch history
+        rq = goenv.run_harness(ctx, PKG_Q, "^TestVerifC01QuicReplay$", inputs=beh, timeout=900)
         rn, rt = fn.result(), ft.result()
     finally:
         tpool.shutdown(wait=True)
     div = 0
-    for res, what in ((rn, "noise"), (rt, "tls"), (rs, "swarm"), (re_, "e2e")):
+    for res, what in ((rn, "noise"), (rt, "tls"), (rs, "swarm"), (re_, "e2e"), (rq, "quic")):
         if res["_rc"] != 0:
             raise MachineryError("harness test %s failed:\n%s" % (what, res["_log"][-3000:]))
         div += classify_mismatches(ctx, res, what)
     xn, xt, xs, xe = rn.get("extra", {}), rt.get("extra", {}), rs.get("extra", {}), re_.get("extra", {})
+    xq = rq.get("extra", {})
+    if rq["replayed"] < len(wH):
+        raise MachineryError("quic replay executed %d behaviours for %d walks" % (rq["replayed"], len(wH)))
     if rn["replayed"] < len(wN):
         raise MachineryError("noise replay executed %d behaviours for %d walks" % (rn["replayed"], len(wN)))
     if rt["replayed"] < len(wT) or rs["replayed"] < len(wS):
@@ -238,17 +256,20 @@ def run(ctx):
         for need in ("S.returned", "S.refused", "S.wrong-closed", "S.warm"):
             if not xs.get(need):
                 raise MachineryError("vacuous: swarm replay counter %s is zero" % need)
+        for need in ("H.plain.P", "H.plain.err", "H.punch.P", "H.punch.err", "H.surfaced.P", "H.surfaced.Q"):
+            if not xq.get(need):
+                raise MachineryError("vacuous: quic replay counter %s is zero (%s)" % (need, xq))
         for combo in ("tcp.noise", "tcp.tls", "quic.tls13"):
             for kind in ("connected", "refused"):
                 if not xe.get("E.%s.%s" % (kind, combo)):
                     raise MachineryError("vacuous: no %s dial over %s in the end-to-end run (%s)" % (kind, combo, xe))
 
     cov = evidence.mc_coverage(
-        states, trans, rn["replayed"] + rt["replayed"] + rs["replayed"] + re_["replayed"],
+        states, trans, rn["replayed"] + rt["replayed"] + rs["replayed"] + re_["replayed"] + rq["replayed"],
         (rn.get("samples") or [])[:1] + (rt.get("samples") or [])[:1] + (rs.get("samples") or [])[:1],
         exhaustive=True,
         checker_cmd="tlc C01_MC.tla (template C01_MC.cfg; parts N, T, S; broken variants %s must violate the invariants)"
-                    % ",".join(BROKEN_N + BROKEN_T + BROKEN_S),
+                    % ",".join(BROKEN_N + BROKEN_T + BROKEN_S + BROKEN_H),
         tlc_runs={n: {"distinct": r["distinct"], "generated": r["generated"], "wall_s": r["wall"], "violated": r["violated"]}
                   for n, r in sorted(results.items())},
         partN={"states": nN_states, "transitions": nN_edges, "walks": len(wN), "edge_kinds": kN,
@@ -262,6 +283,9 @@ def run(ctx):
                     "counters": {k: v for k, v in sorted(xt.items()) if k.startswith("T.")}},
         replay_swarm={"runs": rs["replayed"], "steps": rs["steps"], "distinct": rs["distinct"],
                       "counters": {k: v for k, v in sorted(xs.items()) if k.startswith("S.")}},
+        partH={"states": gH.n_states(), "transitions": gH.n_edges(), "walks": len(wH), "edge_kinds": kH},
+        replay_quic={"runs": rq["replayed"], "steps": rq["steps"], "distinct": rq["distinct"],
+                     "counters": {k: v for k, v in sorted(xq.items()) if k.startswith("H.")}},
         end_to_end={"dials": re_["replayed"], "counters": {k: v for k, v in sorted(xe.items()) if k.startswith("E.")}},
         divergences_L2=div, notes=ctx.notes[:12])
     return {"level": "model_checking", "coverage": cov, "assumptions": [
